@@ -129,6 +129,26 @@ theorem value_surjective (v : Nat) (hv : v < 16384) :
     typeValue (readValue v).1 (readValue v).2 = v := by
   rw [value_read]; omega
 
+/-- outside the domain: `Value()` silently drops method bits 12-15 and class bits 2-7, so every uint16 method and
+    byte class encodes as its reduction into the domain (what `NewType` does with an out-of-range argument) -/
+theorem value_out_of_domain (m c : Nat) (hm : m < 65536) (hc : c < 256) :
+    typeValue m c = typeValue (m % 4096) (c % 4) := by
+  rw [typeValue_arith m c hm hc, typeValue_arith (m % 4096) (c % 4) (by omega) (by omega)]
+  omega
+
+/-- hence every encoded type, whatever the method and class, has its two leading bits clear -/
+theorem value_lt_2_14_any (m c : Nat) (hm : m < 65536) (hc : c < 256) : typeValue m c < 16384 := by
+  rw [value_out_of_domain m c hm hc]
+  exact value_lt_2_14 _ _ (Nat.mod_lt _ (by decide)) (Nat.mod_lt _ (by decide))
+
+/-- and decoding it yields the reduced method and class -/
+theorem read_value_any (m c : Nat) (hm : m < 65536) (hc : c < 256) :
+    readValue (typeValue m c) = (m % 4096, c % 4) := by
+  rw [value_out_of_domain m c hm hc]
+  exact read_value _ _ (Nat.mod_lt _ (by decide)) (Nat.mod_lt _ (by decide))
+
+example : typeValue 0x1001 6 = 0x0101 := by decide
+
 -- non-vacuity / sanity: Binding success response is 0x0101, Allocate error response 0x0113
 example : typeValue 0x001 2 = 0x0101 ∧ typeValue 0x003 3 = 0x0113 := by decide
 example : readValue 0x0101 = (1, 2) := by decide
